@@ -32,6 +32,8 @@ FAMILY = {
     'open1x3': {'space_grid': [0, 1], 'time_grid': [0, 1, 2, 3], 'glued': False},
     'glued2x1nonuni': {'space_grid': [0, 0.3, 1.7], 'time_grid': [0, 0.7], 'glued': True},
     'open2x2nonuni': {'space_grid': [0, 0.1, 1.0], 'time_grid': [0, 1 / 3, 1], 'glued': False},
+    'open2x2offset': {'space_grid': [2, 3, 4.5], 'time_grid': [1, 2, 4], 'glued': False},
+    'open2x2through0': {'space_grid': [-1, 0, 2], 'time_grid': [-1, 0, 1], 'glued': False},
     'UnitSquare': {'curve': 'UnitSquare'},
     'Circle': {'curve': 'Circle'},
     'LShape': {'curve': 'LShape'},
@@ -116,6 +118,10 @@ def run_bfs(spec, acc, focus):
                         if focus == 'C02':
                             acc.violation('mesh-op-raised:%s:%s' % (fr[0], type(ex).__name__),
                                           'legal bisection raised %s(%s) at %s:%d' % (type(ex).__name__, str(ex)[:80], fr[1], fr[2]),
+                                          {'mesh': FAMILY[name], 'history': list(hist) + [op]})
+                        elif fr[0] == 'neighbour_elements':
+                            acc.violation('neighbours:lookup-raised-during-refine:%s' % type(ex).__name__,
+                                          'neighbour_elements() raised %s at %s:%d inside a legal bisection' % (type(ex).__name__, fr[1], fr[2]),
                                           {'mesh': FAMILY[name], 'history': list(hist) + [op]})
                         continue
                     ev = log.take()
@@ -232,6 +238,10 @@ def run_random(spec, acc, focus):
                     if focus == 'C02':
                         acc.violation('mesh-op-raised:%s:%s' % (fr[0], type(ex).__name__),
                                       'legal operation raised %s(%s) at %s:%d' % (type(ex).__name__, str(ex)[:80], fr[1], fr[2]),
+                                      {'mesh': ms, 'history': ls.history, 'step': step})
+                    elif fr[0] == 'neighbour_elements':
+                        acc.violation('neighbours:lookup-raised-during-refine:%s' % type(ex).__name__,
+                                      'neighbour_elements() raised %s at %s:%d inside a legal operation' % (type(ex).__name__, fr[1], fr[2]),
                                       {'mesh': ms, 'history': ls.history, 'step': step})
                     break
                 ev = log.take()
@@ -362,6 +372,9 @@ def run_deep(spec, acc, focus):
                 if focus == 'C02':
                     acc.violation('mesh-op-raised:%s:%s' % (fr[0], type(ex).__name__), 'deep bisection raised %s at %s:%d' % (type(ex).__name__, fr[1], fr[2]),
                                   {'mesh': ms, 'history': ls.history})
+                elif fr[0] == 'neighbour_elements':
+                    acc.violation('neighbours:lookup-raised-during-refine:%s' % type(ex).__name__,
+                                  'neighbour_elements() raised %s at %s:%d inside a deep bisection' % (type(ex).__name__, fr[1], fr[2]), {'mesh': ms, 'history': ls.history})
                 break
             log.take()
             ok = _judge(acc, focus, ls, 'deep%d' % step, 'deep', gmsh=(step == depth - 1))
